@@ -37,6 +37,15 @@ func (g *G) classReps() []dec {
 	for i := 0; i < 6; i++ {
 		reps = append(reps, g.finite())
 	}
+	// other encodings of ±1, ±2, ±0.5 and of odd/even integers: long runs of trailing zeros (cohort members)
+	for _, c := range []int64{1, 1, 2, 5, 3} {
+		k := 1 + g.pick(33)
+		if c == 1 && g.chance(0.7) {
+			k = 19 + g.pick(15)
+		}
+		lo, hi := encodeDec(g.chance(0.5), new(big.Int).Mul(big.NewInt(c), pow10(k)), 6176-k-map[int64]int{5: 1}[c])
+		reps = append(reps, dec{lo, hi})
+	}
 	return reps
 }
 
@@ -147,6 +156,11 @@ func (g *G) logArg() dec {
 }
 
 func (g *G) log1pArg() dec {
+	if g.chance(0.25) { // every slot of the powers-of-ten tables: long coefficient at exponent -k, k = 1..58
+		k := 1 + g.pick(58)
+		lo, hi := encodeDec(g.chance(0.5), g.coefLen(30+g.pick(5)), 6176-k)
+		return dec{lo, hi}
+	}
 	switch g.pick(6) {
 	case 0: // close to -1
 		k := 1 + g.pick(33)
